@@ -192,6 +192,46 @@ class C04(Prop):
             spec["cli"] = random_cli(R.fork("cli"), [c for c in conns if c["proto"] in ("tls", "quic")], allow=("m", "a", "p"))
         return spec
 
+    @staticmethod
+    def _short_ids(conn):
+        """the (1-2 byte) connection ids a QUIC connection starts with, as the peers derive them from the sub-seed"""
+        from ..rng import Rng as _R
+        q = conn["q"]
+        out = []
+        RR = _R(conn["sub"], "quic")
+        for k, fork in (("c", "cscid"), ("s", "sscid")):
+            ln = q.get("scid_%s_len" % k, 0)
+            if 1 <= ln <= 2:
+                cid = RR.fork(fork).bytes(ln)
+                pre = bytes.fromhex(q.get("scid_%s_prefix" % k) or "")[:ln]
+                out.append(pre + cid[len(pre):])
+        return out
+
+    def neutralisers(self):
+        def no_udp_noise(spec):
+            # KF-3 concerns unrelated UDP datagrams only: remove them
+            keep = [c for c in spec["conns"] if c["proto"] != "udp"]
+            if len(keep) == len(spec["conns"]):
+                return None
+            spec["conns"] = keep
+            return spec
+        return {"without-unrelated-udp-datagrams": no_udp_noise}
+
+    def preconditions(self):
+        def noise_begins_with_short_id(spec):
+            """an unrelated datagram in short-header form (first bit 0) whose bytes behind the first one begin with a one or
+            two byte connection id of a QUIC connection of the world"""
+            ids = [i for c in spec["conns"] if c["proto"] == "quic" for i in self._short_ids(c)]
+            for c in spec["conns"]:
+                if c["proto"] != "udp":
+                    continue
+                for _, h in c["dgrams"]:
+                    b = bytes.fromhex(h)
+                    if b and not b[0] & 0x80 and any(b[1:1 + len(i)] == i for i in ids):
+                        return True
+            return False
+        return {"unrelated-datagram-begins-with-short-connection-id": noise_begins_with_short_id}
+
     def quic_available(self):
         import os
         return os.path.exists(os.path.join(os.path.dirname(os.path.dirname(__file__)), "quicpeer.py"))
